@@ -40,7 +40,7 @@ def run_case(case, **kw):
     return s, w
 
 
-def sweep(ctx, prog, name, evaluate, account, double=False, seed=1, picks=(0, 1), window=16, extra=None):
+def sweep(ctx, prog, name, evaluate, account, double=False, seed=1, picks=(0, 1), window=16, extra=None, double_in=None):
     """Every single pre-emption placement of `prog` (and, if double, every pair
     whose second pre-emption follows within `window` points of the first)."""
     base = {"prog": prog, "tape": [], "clock": "exact"}
@@ -49,6 +49,9 @@ def sweep(ctx, prog, name, evaluate, account, double=False, seed=1, picks=(0, 1)
     viols, info = evaluate(base)
     account(ctx, base, viols, info, ["sweep:" + name.split("/")[-1]])
     n = info["steps"]
+    # double_in: name of an entry of info holding (first, last) scheduling point of the default run between which the FIRST of two
+    # pre-emptions is placed (a focused double sweep, cheap enough for the quick tier)
+    focus = info.get(double_in) if double_in else None
     count = 1
     bad_run = 1 if viols else 0
     complete = True
@@ -66,9 +69,9 @@ def sweep(ctx, prog, name, evaluate, account, double=False, seed=1, picks=(0, 1)
             ctx.notes.append("sweep of %s cut short after %d consecutive violating placements" % (name, bad_run))
             break
     ctx.exhaustive.append({"domain": "single pre-emption placements of " + name, "points": n, "size": count, "complete": complete})
-    if double and complete:
+    if (double or focus) and complete:
         count2 = 0
-        for i in range(n + 1):
+        for i in (range(n + 1) if double else range(max(0, focus[0] - 2), min(n, focus[1] + 2) + 1)):
             for p in picks:
                 for j in range(window):
                     for q in picks:
@@ -76,8 +79,8 @@ def sweep(ctx, prog, name, evaluate, account, double=False, seed=1, picks=(0, 1)
                         viols, info = evaluate(case)
                         account(ctx, case, viols, info, ["sweep2:" + name.split("/")[-1]])
                         count2 += 1
-        ctx.exhaustive.append({"domain": "double pre-emption (second within %d points) of %s" % (window, name),
-                               "size": count2, "complete": True})
+        ctx.exhaustive.append({"domain": "double pre-emption (%ssecond within %d points) of %s" % (
+            "" if double else "first within points %d..%d of the default run, " % tuple(focus), window, name), "size": count2, "complete": True})
 
 
 def random_search(ctx, spec, strategy, evaluate, account, max_rounds=4):
